@@ -1,5 +1,5 @@
 """C06 — semaphore: the longest-waiting acquirer is never stranded (necessary wake-up rules)."""
-from rl import (entry_methods, loc_endswith, path_cond, trace_summary, where, const_of, fmt_val, fmt_loc, fields_of)
+from rl import (method_role, entry_methods, loc_endswith, path_cond, trace_summary, where, const_of, fmt_val, fmt_loc, fields_of)
 from common import (w4_pending_stores_waker, w4_helper, own_node_roots, poll_variant, fifo_ends, contains, cmp_fact)
 from lib import CheckerError
 
@@ -131,6 +131,28 @@ def run(C, R):
                                    '%s: a waiting acquirer is unlinked (cancelled) without re-running the wake-up '
                                    'walk; if it was the head, a request behind it that fits stays asleep [%s]' % (
                                        m['path'], pc), where(F, unlinked[-1][1]), {'trace': trace_summary(path)})
+            # R7: a notified acquirer acquires unless the path has established that its request does NOT fit
+            for path in paths:
+                for root in owns:
+                    sloc = root + ('data', 'state')
+                    if path.facts.get(('discr', ('init', sloc))) != ('eq', 'Notified'):
+                        continue
+                    if not method_role(F, m)[1]:
+                        continue   # only the poll function (it takes the task context)
+                    req = ('init', root + ('data', 'required_permits'))
+                    too_few = cmp_fact(E, path.facts, 'Lt', ('init', (('P', 'self'), 'permits')), req) == 1
+                    if path.exit == 'return' and poll_variant(E, path) == 'Ready':
+                        R.ok('C06.R7', '%s|notified => acquires|%s' % (m['path'], path_cond(E, path)))
+                    elif path.exit == 'panic' and any(e['k'] == 'qop' and e['op'] == 'remove' for e in path.events):
+                        continue   # failed-unlink panic: infeasible by C01.I1
+                    elif too_few:
+                        R.ok('C06.R7', '%s|notified, permits < required => waits|%s' % (m['path'], path_cond(E, path)))
+                    else:
+                        R.fail('C06.R7', [m['path'], 'notified-acquirer-does-not-take-fitting-permits', path.exit],
+                               '%s: a notified acquirer does not acquire (%s) on a path that has not established '
+                               'permits < required [%s]' % (m['path'], 'panics' if path.exit == 'panic' else
+                                                            'stays pending', path_cond(E, path)),
+                               '%s:%s' % (m['file'], m['line']), {'trace': trace_summary(path)})
             w4_pending_stores_waker(R, E, F, m, paths, 'C06.R6')
         w4_helper(R, E, F, 'C06.R6h')
         R.floor('C06.R1 permit-increase-paths[%s]' % cfg, counts['R1'], 1)
